@@ -17,7 +17,8 @@ EXPLANATION = (
     "type tables (match-arm tables of type-checked HIR, all decoders of the same coding family incl. the async ones); "
     "(R4) the 28 data series and the guards under which they are touched (is_detached, is_unmapped, "
     "quality_scores_are_stored_as_array, alignment_starts_are_deltas, records_have_names) are used by functions of the same "
-    "stem in the slice reader and the slice writer; (R5) record counter advanced only by flush with records.len().")
+    "stem in the slice reader and the slice writer; (R5) record counter advanced only by flush with records.len()."
+    " (R6) append-buffer discipline for the CRAM header text reader and the name tokenizer's token reader.")
 ASSUMPTIONS = ["flate2 Crc/CrcReader/CrcWriter compute CRC32 of exactly the bytes passed through", "md5 crate",
                "function-stem pairing (read_x <-> write_x) reflects the symmetric structure of the two record codecs (floor-checked)"]
 NOT_DECIDED = ["record equality: feature/CIGAR/base reconstruction, mate resolution, every encoder option x codec",
